@@ -401,6 +401,34 @@ Qed.
 
 End OpsProofs.
 
+(* ------------------------------------------------------------------ named creation: only inside the range *)
+Lemma create_named_at_only_in_range :
+  forall (T : tables) (check_fn : N -> list N -> res bool) (LATEST : N)
+         (h : id) (n : node) (m v name : N) (item : list N) (pos : N) (w : world) (c : id) (w' : world),
+  w_nodes w h = Some n ->
+  model_of h w = Val (OK m, w) -> min_version LATEST h w = Val (OK v, w) ->
+  e_create_named_sub_element_at T check_fn LATEST h name item pos w = Val (OK c, w') ->
+  exists lo hi et ix,
+    calc_element_insert_range T n name v w = Val (OK (lo, hi), w) /\ lo <= pos <= hi /\ item <> [] /\
+    find_sub_element T (n_type n) name v = Val (Some (et, ix)) /\ is_named_in_version T et v = Val true.
+Proof.
+  intros T check_fn LATEST h n m v name item pos w c w' Hn Hm Hv H.
+  unfold e_create_named_sub_element_at, wbind in H. rewrite Hm, Hv in H.
+  unfold raw_create_named_sub_element_at, wbind, get_node in H. rewrite Hn in H.
+  destruct (calc_element_insert_range T n name v w) as [[[[lo hi]|er] w1]| |] eqn:EC; try discriminate.
+  pose proof (calc_ro T _ _ _ _ _ _ EC) as ->.
+  destruct ((lo <=? pos) && (pos <=? hi)) eqn:EP; [|discriminate].
+  apply andb_true_iff in EP as [E1 E2]. apply N.leb_le in E1. apply N.leb_le in E2.
+  unfold create_named_sub_element_inner in H.
+  destruct item as [|i0 item']; [discriminate|]. cbn [is_empty] in H.
+  unfold wbind at 1 in H. unfold get_node in H. rewrite Hn in H.
+  unfold wbind at 1 in H. unfold wl, wlift in H.
+  destruct (find_sub_element T (n_type n) name v) as [[[et ix]|]| |] eqn:EF; try discriminate.
+  unfold wbind at 1 in H.
+  destruct (is_named_in_version T et v) as [[|]| |] eqn:ENV; try discriminate.
+  exists lo, hi, et, ix. repeat split; auto; discriminate.
+Qed.
+
 (* the three proved cases of the order invariant, as one statement (Properties/C07.v C07_order_inv_partial) *)
 Lemma order_inv_partial :
   forall (T : tables) (LATEST : N), SpecWF T ->
